@@ -109,7 +109,7 @@ theorem inci_insertCell {c : Nat → Nat} {s : St} {i : Nat} {first : Bool} {sl 
     IncI c (insertCell s i first sl).fst.S := by
   rw [(insertCell_frame s i first sl).2.2.2.2.1]; exact h
 
-set_option maxHeartbeats 1000000 in
+set_option maxHeartbeats 400000 in
 theorem Inc_simple (c : Nat → Nat) (s : St) (op : Op) (s' : St) (r : String) (hI : Inc c s)
     (h : stepSimple s op = some (s', r)) : Inc c s' := by
   cases op <;> simp only [stepSimple] at h
